@@ -250,6 +250,9 @@ def check_uci(pid, tier, seed):
     model_check(chk, "Uci", cfg="Uci" if quick else "UciBig", workers=4)
     model_check(chk, "Uci", cfg="UciPinned", workers=2, expect_violation=True)
     model_check(chk, "Uci", cfg="UciLive", workers=2)        # liveness: every owed bestmove is eventually printed (fair SearchFinish)
+    # for command sequences of any length: the invariants are inductive (Apalache), not inductive for the pinned handler
+    from check import apalache_inductive
+    apalache_inductive(chk, "UciInd", guard_cinit="ConstInitPinned")
     if pid == "C07":
         # the same session at the grain of its threads; refinement of Uci.tla checked by TLC; two counterexample guards
         model_check(chk, "UciThreads", cfg="UciThreads" if quick else "UciThreadsBig", workers=4)
